@@ -116,7 +116,7 @@ def configs(tier):
         for transp in ("none", "all", "diag"):
             for init in ("empty", "nonempty"):
                 out.append({"kind": "xor", "depth": depth, "width": width, "nr": nr, "nw": nw, "gran": None, "transp": transp, "init": init})
-    ilvts = [(2, 2, 1, 2), (3, 2, 1, 2), (4, 1, 1, 2)] if tier == "quick" else [(2, 2, 1, 2), (3, 2, 1, 2), (4, 1, 1, 2), (4, 3, 2, 2), (3, 2, 1, 3), (2, 2, 2, 3), (5, 2, 1, 2)]
+    ilvts = [(2, 2, 1, 2), (3, 2, 1, 2), (4, 1, 1, 2), (3, 2, 1, 3)] if tier == "quick" else [(2, 2, 1, 2), (3, 2, 1, 2), (4, 1, 1, 2), (4, 3, 2, 2), (3, 2, 1, 3), (2, 2, 2, 3), (5, 2, 1, 2)]
     for depth, width, nr, nw in ilvts:
         for transp in ("none", "all", "diag"):
             for init in ("empty", "nonempty"):
@@ -175,6 +175,21 @@ def run(cfg, ctx):
         mismatch = z3.Or(*[hw.sig(prod.r[i].data) != hw.sig(prod.ir[i].data) for i in range(nr)])
         ctx.bmc("from_reset.read_data_equals_ideal_memory[zero_write_ports]", hw, mismatch, assume=Aall, k=8)
         return
+    if cfg["kind"] in ("xor_ilvt", "onehot_ilvt") and nw >= 1:
+        # structural precondition of the ILVT argument: an entry of the live-value table can name every write port
+        # (binary index for the XOR-based table, one code bit per other port for the one-hot table)
+        from amaranth import Shape
+
+        inner = hw.rec.locals_of(prod.impl)["ilvt"]
+        ew = Shape.cast(inner.shape).width
+        need = max(0, (nw - 1).bit_length()) if cfg["kind"] == "xor_ilvt" else nw - 1
+        ok = ew >= need
+        ctx.structural("ilvt_table_entry_can_name_every_write_port", ok, "finite evaluation (shape of the elaborated live-value table)",
+                       f"table entry has {ew} bits, {nw} write ports need {need}")
+        if not ok:
+            mismatch = z3.Or(*[hw.sig(prod.r[i].data) != hw.sig(prod.ir[i].data) for i in range(nr)])
+            ctx.bmc("from_reset.read_data_equals_ideal_memory", hw, mismatch, assume=Aall, k=6)
+            return
     corr = Correspondence(hw, assume=Aall)
     ctx.notes.append(f"correspondence {cfg}: {corr.summary()}")
     E0, E1 = corr.E(False), corr.E(True)
